@@ -36,7 +36,8 @@ impl SingleQuery {
         } else {
             for i in 0..self.var_order.len() {
                 let p = &self.var_order[i].value;
-                if value.eq(p) {
+                //an internal entry is a literal: its text is not a variable name
+                if !self.var_order[i].internal && value.eq(p) {
                     return format!("?{}", i + 1);
                 }
             }
